@@ -124,6 +124,23 @@ func c13Single(w *core.W, s string, entry string) (*jnum.Number, *big.Rat) {
 	if r2 := ratOf(str); !c13Grammar.MatchString(str) || r2 == nil || r2.Cmp(r) != 0 {
 		w.Violate(bv("string", entry, []byte(s), fmt.Sprintf("String()=%q does not denote the same value", trunc(str, 80)), map[string]string{"shape": shape}))
 	}
+	// reading a number (printing it, asking for its fraction length) leaves it as it was:
+	// the second answer is the first one, and the number still equals a fresh parse
+	var str2 string
+	var fl2 uint
+	var cmpFresh int
+	if rec, site := guard(func() {
+		str2, fl2 = n.String(), n.LengthOfFractionalPart()
+		fresh, _, _, _ := newNum(s)
+		cmpFresh = n.Cmp(fresh)
+	}); rec != nil {
+		w.Violate(bv("no-panic", entry, []byte(s), fmt.Sprintf("second String/Cmp panicked: %v", rec), map[string]string{"site": site}))
+		return nil, nil
+	}
+	if str2 != str || fl2 != fl || cmpFresh != 0 {
+		w.Violate(bv("reading-leaves-the-number-intact", entry, []byte(s), fmt.Sprintf("String() gave %q, then %q; fraction length %d, then %d; compared with a fresh parse of the same text afterwards: %d", trunc(str, 40), trunc(str2, 40), fl, fl2, cmpFresh), map[string]string{"shape": shape}))
+		return nil, nil
+	}
 	if want := fracLen(r); want >= 0 && int(fl) != want {
 		w.Violate(bv("fraction-length", entry, []byte(s), fmt.Sprintf("LengthOfFractionalPart()=%d, value has %d significant fraction digits", fl, want), map[string]string{"shape": shape}))
 	}
